@@ -234,6 +234,86 @@ def r16_eq_hash(ctx):
                   "comparing it with ==: equal durations may then hash "
                   "differently and order strictly, and == is not "
                   "transitive" % loose, P11)
+    # ... and on every path: whatever __eq__ returns for two Durations other
+    # than a plain False has compared the two total lengths (a shortcut
+    # that answers from something else - emptiness of the fields, identity
+    # of one unit - makes == disagree with the hash and the orderings)
+    if eq0 is not None and len(eq0.params) > 1:
+        from ..dtable import explore as _explore
+        sn, on = eq0.self_name, eq0.params[1]
+
+        def _is_total_eq(e):
+            if not (isinstance(e, ast.Compare) and len(e.ops) == 1 and
+                    isinstance(e.ops[0], ast.Eq)):
+                return False
+            pa, pb = _proj_call(e.left), _proj_call(e.comparators[0])
+            return pa is not None and pb is not None and pa[1] == pb[1] \
+                and pa[1] in canon and {pa[0], pb[0]} == {sn, on}
+
+        def _conj(e):
+            if isinstance(e, ast.BoolOp) and isinstance(e.op, ast.And):
+                for v in e.values:
+                    yield from _conj(v)
+            else:
+                yield e
+        try:
+            paths = _explore(eq0.node.body)
+        except AnalysisError:
+            paths = None
+        loose = []
+        n_ret = 0
+        if paths is not None:
+            for p_ in paths:
+                if p_.outcome != "return" or p_.value is None:
+                    continue
+                v = p_.value
+                if isinstance(v, ast.Constant) and v.value is False or (
+                        isinstance(v, ast.Name) and
+                        v.id == "NotImplemented"):
+                    continue
+                if isinstance(v, ast.Call) and U(v.func) in (
+                        "NotImplemented",):
+                    continue
+                n_ret += 1
+                if any(_is_total_eq(c) for c in _conj(v)):
+                    continue
+                est = False
+                for atom, val in p_.decisions.items():
+                    if not val:
+                        continue
+                    try:
+                        a_ = ast.parse(atom, mode="eval").body
+                    except SyntaxError:
+                        continue
+                    if _is_total_eq(a_):
+                        est = True
+                if est:
+                    continue
+                # identity of the operands is an answer of its own
+                if any(val and atom.replace(" ", "") in (
+                        "%sis%s" % (sn, on), "%sis%s" % (on, sn))
+                        for atom, val in p_.decisions.items()):
+                    continue
+                if p_.skipped:
+                    paths = None
+                    break
+                loose.append("`return %s` when %s" % (
+                    U(v)[:60], p_.when()[:120] or "always"))
+        if paths is None:
+            rep.undecided(rule, ctx.fkey(eq0, None, "eq-paths"), eq0.loc(),
+                          "Duration.__eq__ is not tabulated (too many "
+                          "paths, or an answer after a loop)", P11)
+        else:
+            rep.check(not loose and n_ret > 0, rule,
+                      ctx.fkey(eq0, None, "eq-paths"), eq0.loc(),
+                      "every non-False answer of Duration.__eq__ (%d "
+                      "return paths) has compared the total lengths of the "
+                      "two operands" % n_ret,
+                      "Duration.__eq__ answers without comparing the total "
+                      "lengths: %s - durations of zero/equal length spelled "
+                      "differently (P1DT-24H vs P0Y) then disagree with "
+                      "their hash and with <=/>=" % "; ".join(loose[:3]),
+                      P11)
     # the projection the orderings compare lexicographically is canonical:
     # its seconds component is the floor remainder of the signed total
     gds = dur.methods.get("get_days_and_seconds")
@@ -348,8 +428,11 @@ def r16_eq_hash(ctx):
         if len(rets) == 1 and isinstance(rets[0].value, ast.Call):
             c = rets[0].value
             callee = [q for q in ctx.in_func(f, c).callees_of_call(c)]
-            if len(callee) == 1 and callee[0] is cmpf and len(c.args) == 2:
-                a0, a1 = c.args
+            cps = list(cmpf.call_params) if cmpf is not None else []
+            b_ = ctx.bound_args(f, c)
+            if len(callee) == 1 and callee[0] is cmpf and len(cps) == 2 \
+                    and set(b_) == set(cps):
+                a0, a1 = b_[cps[0]], b_[cps[1]]
                 want = name.strip("_")
                 good = (isinstance(a0, ast.Name) and len(f.params) > 1 and
                         a0.id == f.params[1] and
@@ -423,6 +506,35 @@ def r16_eq_hash(ctx):
                          if isinstance(x, ast.Name)}
         blocks = {}
         raw_used = []
+        # a local bound only to unbound date getters (Class.get_x_date),
+        # applied as f(operand), is that getter applied to the operand
+        from ..flow import alternatives as _alts
+        fnrefs = {}
+        for x in ast.walk(cmpf.node):
+            if isinstance(x, ast.Call) and isinstance(x.func, ast.Name) \
+                    and len(x.args) == 1 and not x.keywords and \
+                    x.func.id not in fnrefs:
+                al = _alts(cmpf.node, x.func.id)
+                if al and all(isinstance(v, ast.Attribute) and
+                              v.attr in CANON_DATE and isinstance(
+                                  v.value, ast.Name) and
+                              v.value.id == tp.name for v, _ in al):
+                    fnrefs[x.func.id] = "|".join(sorted(
+                        {v.attr for v, _ in al}))
+        for x in ast.walk(cmpf.node):
+            if isinstance(x, ast.Call) and isinstance(
+                    x.func, ast.Name) and x.func.id in fnrefs and len(
+                        x.args) == 1:
+                blk = None
+                for a in ancestors(x):
+                    pa = parent(a)
+                    if isinstance(a, ast.stmt) and pa is not None:
+                        for fld in ("body", "orelse", "finalbody"):
+                            if a in (getattr(pa, fld, None) or []):
+                                blk = (id(pa), fld)
+                        break
+                blocks.setdefault(blk, {}).setdefault(
+                    U(x.args[0]), []).append(fnrefs[x.func.id])
         for x in ast.walk(cmpf.node):
             if not (isinstance(x, ast.Attribute) and isinstance(
                     x.ctx, ast.Load)):
@@ -458,7 +570,7 @@ def r16_eq_hash(ctx):
                    if isinstance(x, ast.Constant) and isinstance(
                        x.value, str) and x.value in CANON_DATE | CANON_TIME]
         if (allg or raw_used) and dynamic and not raw_used and not (
-                any(g in CANON_DATE for g in allg)):
+                any(g.split("|")[0] in CANON_DATE for g in allg)):
             rep.undecided(rule, ctx.fkey(cmpf, None, "key-shape"),
                           cmpf.loc(), "the date getter is selected by name "
                           "(%s) and applied indirectly: which operand it is "
@@ -466,7 +578,7 @@ def r16_eq_hash(ctx):
                           P02)
         elif allg or raw_used:
             canon = not raw_used and any(g in CANON_TIME for g in allg) \
-                and any(g in CANON_DATE for g in allg)
+                and any(g.split("|")[0] in CANON_DATE for g in allg)
             rep.check(same and canon, rule,
                       ctx.fkey(cmpf, None, "key-shape"), cmpf.loc(),
                       "both operands are projected by the same date getter "
